@@ -107,7 +107,7 @@ theorem accept_implies_usable_partial (s : Option Settings) (pw : Bool)
         rcases hcipher with ⟨hn, _⟩ | ⟨ci, enc', kv, hci, _, _, hfc'⟩
         · rw [hsome] at hn; cases hn
         · rw [hsome] at hci; cases hci
-          exact fromConfig_mem _ _ _ hfc'
+          exact slotConfig_mem _ _ _ _ _ hfc'
       have hcu := cipher_usable_of row args c hmemc hcon kb hkb n hur hencr
       have hku := kdf_usable_of krow kargs k.userKdf (fromConfig_mem _ _ _ hfc) hkcon hder
       obtain ⟨hkr, hka⟩ := construct_row_args krow kargs k.userKdf hkcon
@@ -131,19 +131,25 @@ def witChunkWrongKind : Option Settings :=
 def witDigestOneByte : Option Settings :=
   some [("hashing", .m [("length", .val (.int 1))]), ("encryption", .val .none)]
 
+/-! Each witness is stated for the source as it is TODAY, and says so in its hypothesis (`blake2b.__init__` has no guard,
+`gclmulchunker.__init__` has its single `min > max` guard, `_make_config` has no kind check): with today's `Generated.lean`
+the hypothesis is true and the theorem is the negation of `accept_implies_usable` at that input; once `/repo` gains the
+missing validation the hypothesis is false, the model follows the new guards, and nothing here has to be edited (the evidence file says which
+hypotheses currently hold: `model_table.witness_hypotheses`). -/
+
 /-- `hashing.length = 100` is accepted (config uploaded); `hashlib.blake2b` takes at most 64 bytes. -/
-theorem hash_length_witness :
+theorem hash_length_witness : guardCount "blake2b" = 0 →
     accept witHashLength true = true ∧ usable (runInit witHashLength true).1 = false ∧ checkedElsewhere witHashLength = false := by
   decide
 
 /-- any adapter name is accepted in the hashing slot: `hashing.name = "aes_gcm"`. -/
-theorem hash_wrong_kind_witness :
+theorem hash_wrong_kind_witness : kindChecked "hashing" = false →
     accept witHashWrongKind true = true ∧ usable (runInit witHashWrongKind true).1 = false ∧
     checkedElsewhere witHashWrongKind = false := by
   decide
 
 /-- negative / non-integer / zero chunk lengths are accepted. -/
-theorem chunk_lengths_witness :
+theorem chunk_lengths_witness : guardCount "gclmulchunker" = 1 →
     (accept witChunkNegative true = true ∧ usable (runInit witChunkNegative true).1 = false) ∧
     (accept witChunkFloat true = true ∧ usable (runInit witChunkFloat true).1 = false) ∧
     (accept witChunkZero true = true ∧ usable (runInit witChunkZero true).1 = false) := by
@@ -151,13 +157,13 @@ theorem chunk_lengths_witness :
 
 /-- a non-chunker in the chunking slot is accepted when the repository is unencrypted (an encrypted `init` happens to call
 `chunker.generate_chunking_params()` and fails before the upload). -/
-theorem chunk_wrong_kind_witness :
+theorem chunk_wrong_kind_witness : kindChecked "chunking" = false →
     accept witChunkWrongKind true = true ∧ usable (runInit witChunkWrongKind true).1 = false ∧
     accept (some [("chunking", .m [("name", .val (.str "blake2b"))])]) true = false := by
   decide
 
 /-- a one-byte digest is accepted: chunk names are digests, so any 257 chunks collide. -/
-theorem digest_too_short_witness :
+theorem digest_too_short_witness : guardCount "blake2b" = 0 →
     accept witDigestOneByte true = true ∧ usable (runInit witDigestOneByte true).1 = false := by
   decide
 
